@@ -115,7 +115,7 @@ def sparse_subset(n: int, max_items: int = 24):
 
 def minimal_handle():
     """Whether (and how) a case also reads its image through a bare-bones caller-side file object (hv.core.MinimalHandle)."""
-    return st.sampled_from([None, None, None, None, None, None, "plain", "seek-none", "reopen", "shared"])
+    return st.sampled_from([None, None, None, None, None, None, "plain", "seek-none", "reopen", "shared", "tempfile"])
 
 
 def fault():
